@@ -1,7 +1,129 @@
 (* GENERATED on every run by translate/pystim2coq.py (hook of harness/C01.py, harness/C09.py) from
-   /tmp/mt-19285-20334/psiaudio/stim.py - do not edit.  Index bookkeeping of: envelope, GateFactory.__init__, GateFactory.next, GateFactory.n_samples_remaining, GateFactory.n_samples, GateFactory.is_complete, EnvelopeFactory.next, FixedWaveform.next, FixedWaveform.n_samples_remaining, FixedWaveform.n_samples, FixedWaveform.is_complete, SquareWaveFactory.next, _sam_envelope.
+   /repo/psiaudio/stim.py - do not edit.  Index bookkeeping of: envelope, GateFactory.__init__, GateFactory.next, GateFactory.n_samples_remaining, GateFactory.n_samples, GateFactory.is_complete, EnvelopeFactory.next, FixedWaveform.next, FixedWaveform.n_samples_remaining, FixedWaveform.n_samples, FixedWaveform.is_complete, SquareWaveFactory.next, _sam_envelope.
    nid = symbolic id of the node; i_env_lb / i_duration / i_rise_time / D / start_samples / duration_samples = the
    pinned float conversions; token = what the input factory hands out. *)
-From Coq Require Import ZArith String.
-Definition translator_gap : Z :=
-  "GateFactory.next line 219: unsupported expression: `lb >= samples or ub <= 0`"%string.
+From PV Require Import Common.PySlice Stim.Model.
+Open Scope Z_scope.
+
+Record gate_st := { gate_start_samples : Z; gate_duration_samples : Z; gate_total_samples : Z; gate_offset : Z }.
+Record fixed_st := { fixed_waveform : list sample; fixed_offset : Z }.
+Record square_st := { square_nid : Z; square_cycle_samples : Z; square_on_samples : Z; square_offset : Z }.
+
+Definition gen_envelope_get_i (offset i_start : Z) : Z :=
+  (Z.max (offset - i_start) 0).
+
+Definition gen_envelope_get_n (i_max offset i_start max_n : Z) : Z :=
+  (np_clip (i_max - (offset - i_start)) 0 (Z.min i_max max_n)).
+
+Definition gen_envelope (nid : Z) (i_env_lb : Z) (i_duration : Z) (i_rise_time : Z) (offset : Z) (samples : option Z) : option (list factor) :=
+  let i_env_ub := (i_env_lb + i_duration) in
+  let samples := match samples with Some v_ => v_ | None => (i_env_lb + i_duration) end in
+  if (i_duration <? (i_rise_time * 2)) then None
+  else (let ramp := (zrange (fun j => (2, nid, j)) 0 (2 * i_rise_time)) in
+    let n_ss_max := (i_duration - (2 * i_rise_time)) in
+    let n_null_pre := (gen_envelope_get_n i_env_lb offset 0 samples) in
+    let samples := (samples - n_null_pre) in
+    let i_onset := (gen_envelope_get_i offset i_env_lb) in
+    let n_onset := (gen_envelope_get_n i_rise_time offset i_env_lb samples) in
+    let samples := (samples - n_onset) in
+    let n_ss := (gen_envelope_get_n n_ss_max offset (i_env_lb + i_rise_time) samples) in
+    let samples := (samples - n_ss) in
+    let i_offset := (gen_envelope_get_i offset (i_env_ub - i_rise_time)) in
+    let n_offset := (gen_envelope_get_n i_rise_time offset (i_env_ub - i_rise_time) samples) in
+    let samples := (samples - n_offset) in
+    let n_null_post := samples in
+    let env := ((zrepeat fzero n_null_pre) ++ (py_slice (Some i_onset) (Some (i_onset + n_onset)) ramp) ++ (zrepeat fone n_ss) ++ (py_slice (Some (i_rise_time + i_offset)) (Some ((i_rise_time + i_offset) + n_offset)) ramp) ++ (zrepeat fzero n_null_post)) in
+    Some env).
+
+Definition gen_gate_init (start_samples : Z) (duration_samples : Z) : gate_st :=
+  let self := ({| gate_start_samples := 0; gate_duration_samples := 0; gate_total_samples := 0; gate_offset := 0 |}) in
+  let self := {| gate_start_samples := start_samples; gate_duration_samples := gate_duration_samples self; gate_total_samples := gate_total_samples self; gate_offset := gate_offset self |} in
+  let self := {| gate_start_samples := gate_start_samples self; gate_duration_samples := duration_samples; gate_total_samples := gate_total_samples self; gate_offset := gate_offset self |} in
+  let self := {| gate_start_samples := gate_start_samples self; gate_duration_samples := gate_duration_samples self; gate_total_samples := ((gate_start_samples self) + (gate_duration_samples self)); gate_offset := gate_offset self |} in
+  let self := {| gate_start_samples := gate_start_samples self; gate_duration_samples := gate_duration_samples self; gate_total_samples := gate_total_samples self; gate_offset := 0 |} in
+  self.
+
+Definition gen_gate_next (self : gate_st) (samples : Z) (token : list sample) : gate_st * list sample :=
+  let samples := samples in
+  let lb := ((gate_start_samples self) - (gate_offset self)) in
+  let ub := (lb + (gate_duration_samples self)) in
+  let token := if (lb >=? 0) then (let token := (py_set_const None (Some lb) szero token) in
+    token)
+  else token in
+  let token := (py_set_const (Some (Z.max ub 0)) None szero token) in
+  let self := {| gate_start_samples := gate_start_samples self; gate_duration_samples := gate_duration_samples self; gate_total_samples := gate_total_samples self; gate_offset := ((gate_offset self) + samples) |} in
+  (self, token).
+
+Definition gen_gate_n_samples_remaining (self : gate_st) : Z :=
+  (Z.max ((gate_total_samples self) - (gate_offset self)) 0).
+
+Definition gen_gate_n_samples (self : gate_st) : Z :=
+  (gate_total_samples self).
+
+Definition gen_gate_is_complete (self : gate_st) : bool :=
+  ((gate_offset self) >=? (gate_total_samples self)).
+
+Definition gen_env_next (nid : Z) (i_rise_time : Z) (self : gate_st) (samples : Z) (token : list sample) : option (gate_st * list sample) :=
+  let samples := samples in
+  match (gen_envelope nid (gate_start_samples self) (gate_duration_samples self) i_rise_time (gate_offset self) (Some samples)) with
+  | None => None
+  | Some env =>
+  match (map2_mul env token) with
+  | None => None
+  | Some waveform =>
+  let self := {| gate_start_samples := gate_start_samples self; gate_duration_samples := gate_duration_samples self; gate_total_samples := gate_total_samples self; gate_offset := ((gate_offset self) + samples) |} in
+  Some (self, waveform)
+  end
+  end.
+
+Definition gen_fixed_next (self : fixed_st) (samples : Z) : fixed_st * list sample :=
+  let samples := samples in
+  let waveform := (py_slice (Some (fixed_offset self)) (Some ((fixed_offset self) + samples)) (fixed_waveform self)) in
+  let waveform_samples := (zlen waveform) in
+  let waveform := if (waveform_samples <? samples) then (let padding := (samples - waveform_samples) in
+    let pad := (zrepeat szero padding) in
+    let waveform := (waveform ++ pad) in
+    waveform)
+  else (let waveform := waveform in
+    waveform) in
+  let self := {| fixed_waveform := fixed_waveform self; fixed_offset := ((fixed_offset self) + samples) |} in
+  (self, waveform).
+
+Definition gen_fixed_n_samples_remaining (self : fixed_st) : Z :=
+  let remaining := ((zlen (fixed_waveform self)) - (fixed_offset self)) in
+  (Z.max remaining 0).
+
+Definition gen_fixed_n_samples (self : fixed_st) : Z :=
+  (zlen (fixed_waveform self)).
+
+Definition gen_fixed_is_complete (self : fixed_st) : bool :=
+  ((fixed_offset self) >=? (zlen (fixed_waveform self))).
+
+Fixpoint gen_square_next_loop (fuel : nat) (self : square_st) (samples : Z) (waveform : list sample) (o : Z) : list sample * Z :=
+  match fuel with
+  | O => (waveform, o)
+  | S fuel =>
+    if (o <? samples) then
+      let waveform := (py_set_const (Some (Z.max o 0)) (Some (Z.max (o + (square_on_samples self)) 0)) ([(5, square_nid self, 0)]) waveform) in
+      let o := (o + (square_cycle_samples self)) in
+      gen_square_next_loop fuel self samples waveform o
+    else (waveform, o)
+  end.
+
+Definition gen_square_next (self : square_st) (samples : Z) : square_st * list sample :=
+  let samples := samples in
+  let waveform := (zrepeat szero samples) in
+  let o := (- ((square_offset self) mod (square_cycle_samples self))) in
+  let '(waveform, o) := gen_square_next_loop (Z.to_nat samples + 2)%nat self samples waveform o in
+  let self := {| square_nid := square_nid self; square_cycle_samples := square_cycle_samples self; square_on_samples := square_on_samples self; square_offset := ((square_offset self) + samples) |} in
+  (self, waveform).
+
+Definition gen_sam_envelope (nid : Z) (D : Z) (offset : Z) (samples : Z) : list factor :=
+  let delay_n := (np_clip (D - offset) 0 samples) in
+  let delay_n := delay_n in
+  let sam_n := (samples - delay_n) in
+  let sam_offset := ((offset + delay_n) - D) in
+  let sam_envelope := (zrange (fun k => (4, nid, k)) sam_offset sam_n) in
+  let delay_envelope := (zrepeat fone delay_n) in
+  (delay_envelope ++ sam_envelope).
+
